@@ -411,6 +411,8 @@ class FileResponse(Response, FileResponseMixin):
     ) -> None:
         self.headers["content-type"] = str(self.content_type)
         self.headers["content-length"] = str(file_size)
+        # this object may have answered a range request before
+        self.headers.pop("content-range", None)
         await send_http_start(send, 200, self.list_headers(as_bytes=True))
         if send_header_only:
             return await send_http_body(send)
@@ -455,6 +457,7 @@ class FileResponse(Response, FileResponseMixin):
     ) -> None:
         boundary = "".join(random_choices("abcdefghijklmnopqrstuvwxyz0123456789", k=13))
         self.headers["content-type"] = f"multipart/byteranges; boundary={boundary}"
+        self.headers.pop("content-range", None)
         content_length, generate_headers = self.generate_multipart(
             ranges, boundary, file_size, self.content_type
         )
